@@ -103,7 +103,7 @@ func cmdStruct(args []string) {
 	b := hx.NewBatch(*work)
 	b.WriteGoMod()
 	var src strings.Builder
-	src.WriteString("package p\n\nimport \"" + b.Mod + "/q\"\n\nvar _ q.TQ\n\nfunc Fn(x int) int { return x }\n\ntype DS struct {\n\tA int\n\tB int\n}\ntype DT struct {\n\tA int\n\tB int\n}\ntype FPS struct{ V int }\ntype UN struct{ X int }\ntype UNI struct {\n\tX     int\n\tExtra interface{}\n}\ntype USI struct{ N UNI }\ntype UTI struct{ N UNI }\ntype UTags map[string]int\ntype US struct {\n\tA  int\n\tN  UN\n\tP  *int\n\tL  []int\n\tM  map[string]int\n\tNM UTags\n}\ntype UT struct {\n\tA  int\n\tN  UN\n\tP  *int\n\tL  []int\n\tLS []string\n\tM  map[string]int\n\tNM UTags\n}\n\nfunc ToS(v []int) []string {\n\tif v == nil {\n\t\treturn []string{\"nil\"}\n\t}\n\treturn []string{\"7\"}\n}\n\ntype Money struct{ V int }\ntype Price struct{ V int }\ntype Cost struct{ V int }\ntype DS2 struct {\n\tA int\n\tM Money\n\tN Money\n}\ntype DT2 struct {\n\tA int\n\tM Price\n\tN Cost\n}\n\nfunc NewT2() *DT2 { return &DT2{A: 100} }\n\nfunc NewDL() []*struct{ A int } { return nil }\n\ntype MN struct {\n\tV    int\n\tNext *MN\n}\ntype MNO struct {\n\tV     int\n\tNextV int\n\tSum   int\n}\n\nfunc NextVal(n *MN) int {\n\tif n == nil {\n\t\treturn -1\n\t}\n\treturn n.V\n}\n\nfunc Summarize(n *MN) int {\n\tif n == nil || n.Next == nil {\n\t\treturn -1\n\t}\n\treturn n.V + n.Next.V\n}\n\ntype UWS struct{ V string }\ntype UWT struct{ V int }\n\nfunc AtoiU(s string) (int, error) { return 0, errBoom{} }\n\ntype errBoom struct{}\n\nfunc (errBoom) Error() string { return \"boom\" }\n\nfunc NewDM() map[string]int { return map[string]int{\"origin\": 1} }\n\ntype DR struct {\n\tV    int\n\tKids []DR\n}\ntype DRO struct {\n\tV    int\n\tKeep int\n\tKids []DRO\n}\n\nfunc NewDRO() *DRO { return &DRO{Keep: 100} }\n\ntype DV struct{ V int }\ntype DVO struct {\n\tV    int\n\tKeep int\n}\n\nfunc NewDVO() *DVO { return &DVO{Keep: 100} }\n")
+	src.WriteString("package p\n\nimport \"" + b.Mod + "/q\"\n\nvar _ q.TQ\n\nfunc Fn(x int) int { return x }\n\ntype DS struct {\n\tA int\n\tB int\n}\ntype DT struct {\n\tA int\n\tB int\n}\ntype FPS struct{ V int }\ntype UN struct{ X int }\ntype UNI struct {\n\tX     int\n\tExtra interface{}\n}\ntype USI struct{ N UNI }\ntype UTI struct{ N UNI }\ntype UTags map[string]int\ntype US struct {\n\tA  int\n\tN  UN\n\tP  *int\n\tL  []int\n\tM  map[string]int\n\tNM UTags\n}\ntype UT struct {\n\tA  int\n\tN  UN\n\tP  *int\n\tL  []int\n\tLS []string\n\tM  map[string]int\n\tNM UTags\n}\n\nfunc ToS(v []int) []string {\n\tif v == nil {\n\t\treturn []string{\"nil\"}\n\t}\n\treturn []string{\"7\"}\n}\n\ntype Money struct{ V int }\ntype Price struct{ V int }\ntype Cost struct{ V int }\ntype DS2 struct {\n\tA int\n\tM Money\n\tN Money\n}\ntype DT2 struct {\n\tA int\n\tM Price\n\tN Cost\n}\n\nfunc NewT2() *DT2 { return &DT2{A: 100} }\n\nfunc NewDL() []*struct{ A int } { return nil }\n\ntype MN struct {\n\tV    int\n\tNext *MN\n}\ntype MNO struct {\n\tV     int\n\tNextV int\n\tSum   int\n}\n\nfunc NextVal(n *MN) int {\n\tif n == nil {\n\t\treturn -1\n\t}\n\treturn n.V\n}\n\nfunc Summarize(n *MN) int {\n\tif n == nil || n.Next == nil {\n\t\treturn -1\n\t}\n\treturn n.V + n.Next.V\n}\n\ntype UNS struct{ L []int }\ntype UOS struct {\n\tA int\n\tN UNS\n}\ntype UOT struct {\n\tA int\n\tN UNS\n}\ntype UDS struct{ A int }\ntype UDT struct {\n\tA   int\n\tAll UDS\n}\ntype UWS struct{ V string }\ntype UWT struct{ V int }\n\nfunc AtoiU(s string) (int, error) { return 0, errBoom{} }\n\ntype errBoom struct{}\n\nfunc (errBoom) Error() string { return \"boom\" }\n\nfunc NewDM() map[string]int { return map[string]int{\"origin\": 1} }\n\ntype DR struct {\n\tV    int\n\tKids []DR\n}\ntype DRO struct {\n\tV    int\n\tKeep int\n\tKids []DRO\n}\n\nfunc NewDRO() *DRO { return &DRO{Keep: 100} }\n\ntype DV struct{ V int }\ntype DVO struct {\n\tV    int\n\tKeep int\n}\n\nfunc NewDVO() *DVO { return &DVO{Keep: 100} }\n")
 	type drvCall struct {
 		Args []any `json:"args"`
 		Dump []int `json:"dump"`
@@ -328,11 +328,36 @@ func cmdStruct(args []string) {
 			drvLines[i]["ins"] = []any{ptrv(stv(lit(5), map[string]any{"k": "nil"}))}
 		case "default-update-shared":
 			// default:update next to a list method that makes goverter generate a helper for DV -> DVO
+			var q map[string]any
+			hx.Must(json.Unmarshal(s.Prog, &q))
+			if q["x"] == "shared-value-source" {
+				// a value source with a pointer target writes through FUNC's pointer also without default:update
+				fmt.Fprintf(&src, "\n// goverter:converter\n// goverter:ignoreMissing\n%stype C%d interface {\n\tAll(source []DV) []DVO\n\t// goverter:default NewDVO\n\tConv(source DV) *DVO\n}\n", head(i), i)
+				drvLines[i]["ins"] = []any{stv(lit(5))}
+				break
+			}
 			fmt.Fprintf(&src, "\n// goverter:converter\n// goverter:ignoreMissing\n%stype C%d interface {\n\tAll(source []DV) []DVO\n\t// goverter:default NewDVO\n\t// goverter:default:update\n\tConv(source *DV) *DVO\n}\n", head(i), i)
 			drvLines[i]["ins"] = []any{ptrv(stv(lit(5)))}
 		case "mapfunc-parent":
 			fmt.Fprintf(&src, "\n// goverter:converter\n%stype C%d interface {\n\t// goverter:map Next NextV | NextVal\n\t// goverter:map . Sum | Summarize\n\tConv(source *MN) *MNO\n}\n", head(i), i)
 			drvLines[i]["ins"] = []any{ptrv(stv(lit(5), ptrv(stv(lit(7), nilv()))))}
+		case "update-odd":
+			var q map[string]any
+			hx.Must(json.Unmarshal(s.Prog, &q))
+			if q["x"] == "noncomparable-struct" {
+				fmt.Fprintf(&src, "\n// goverter:converter\n// goverter:skipCopySameType\n%stype C%d interface {\n\t// goverter:update target\n\t// goverter:update:ignoreZeroValueField:struct\n\tUpdate(source UOS, target *UOT)\n}\n", head(i), i)
+			} else {
+				fmt.Fprintf(&src, "\n// goverter:converter\n// goverter:skipCopySameType\n%stype C%d interface {\n\t// goverter:update target\n\t// goverter:map . All\n\tUpdate(source *UDS, target *UDT)\n}\n", head(i), i)
+			}
+		case "mapfunc-wrap":
+			var q map[string]any
+			hx.Must(json.Unmarshal(s.Prog, &q))
+			wl := "// goverter:wrapErrors\n"
+			if q["x"] == "using" {
+				wl = "// goverter:wrapErrorsUsing " + b.Mod + "/wx\n"
+			}
+			fmt.Fprintf(&src, "\n// goverter:converter\n%s%stype C%d interface {\n\t// goverter:map V | AtoiU\n\tConv(source UWS) (UWT, error)\n}\n", wl, head(i), i)
+			drvLines[i]["ins"] = []any{stv(map[string]any{"k": "b", "tok": "#x"})}
 		case "update-wrap":
 			var q map[string]any
 			hx.Must(json.Unmarshal(s.Prog, &q))
@@ -451,7 +476,7 @@ func cmdStruct(args []string) {
 		if o.Gen == "ok" {
 			b.WriteOutputs(i, o.Files)
 			m := "Conv"
-			if scens[i].Kind == "update" || scens[i].Kind == "update-iface" || scens[i].Kind == "update-wrap" {
+			if scens[i].Kind == "update" || scens[i].Kind == "update-iface" || scens[i].Kind == "update-wrap" || scens[i].Kind == "update-odd" {
 				m = "Update"
 			}
 			b.Reg[i] = fmt.Sprintf("reflect.ValueOf((&gen.C%dImpl{}).%s)", i, m)
@@ -542,6 +567,9 @@ func cmdStruct(args []string) {
 			obs.Write(base)
 		case "update-iface":
 			obs.Write(base)
+		case "update-odd":
+			base["prog"] = s.Prog
+			obs.Write(base)
 		case "default-update-rec", "default-update-shared":
 			base["prog"] = s.Prog
 			base["panic"] = false
@@ -569,7 +597,7 @@ func cmdStruct(args []string) {
 				}
 			}
 			obs.Write(base)
-		case "update-wrap":
+		case "update-wrap", "mapfunc-wrap":
 			base["prog"] = s.Prog
 			base["err"], base["path"] = "", []string{}
 			for _, r := range byID[i] {
